@@ -29,6 +29,10 @@ fn main() {
         "C24taskchild" => engines::c24::task_child_main(),
         "C02" => engines::c02::main(&args),
         "C13" => engines::c13::main(&args),
+        "C15" => engines::c15::main(&args),
+        "C15child" => engines::c15::child_main(),
+        "C22" => engines::c22::main(&args),
+        "C22child" => engines::c22::child_main(),
         "C01" => engines::c01::main(&args),
         "RTchild" => engines::rt::child_main(),
         "C20" => engines::c20::main(&args),
